@@ -1,11 +1,23 @@
-"""Deterministic builders: JSON spec -> flowjax objects.  Pure functions of the spec."""
+"""Deterministic builders: JSON spec -> flowjax objects (+ a parallel Node tree used by the
+reference interpreter).  Everything is a pure function of the spec (no RNG besides
+jax.random keyed by integers found in the spec)."""
+from __future__ import annotations
+
+import math
+
 import equinox as eqx
 import jax
 import jax.numpy as jnp
 import jax.random as jr
 import numpy as np
 
+from flowjax import bijections as B
 from flowjax import wrappers
+from flowjax.bisection_search import AutoregressiveBisectionInverter
+from vf import shim
+
+FDT = np.float32 if shim.F32 else np.float64
+R, RPOS, UNIT = 0, 1, 2  # element domain tags: reals, positive reals, (-1, 1)
 
 
 def _is_nt(leaf):
@@ -23,3 +35,487 @@ def perturb(tree, pscale: float, pseed: int):
     keys = jr.split(jr.PRNGKey(int(pseed)), max(len(leaves), 1))
     new = [l + pscale * jr.normal(k, l.shape, l.dtype) for l, k in zip(leaves, keys)]
     return eqx.combine(jax.tree_util.tree_unflatten(treedef, new), static)
+
+
+class TensorMap(eqx.Module):
+    """Small nonlinear map in_shape -> out_shape used as AdditiveCondition module / embedding net."""
+    W: jax.Array
+    b: jax.Array
+    nin: int = eqx.field(static=True)
+
+    def __init__(self, key, in_shape, out_shape):
+        k1, k2 = jr.split(key)
+        self.W = jr.normal(k1, tuple(out_shape) + tuple(in_shape)) / math.sqrt(max(1, math.prod(in_shape)))
+        self.b = 0.3 * jr.normal(k2, tuple(out_shape))
+        self.nin = len(in_shape)
+
+    def __call__(self, c):
+        return jnp.tanh(jnp.tensordot(self.W, c, axes=self.nin) + self.b)
+
+
+def tight_inverter():
+    if shim.F32:
+        return AutoregressiveBisectionInverter()
+    return AutoregressiveBisectionInverter(tol=1e-13, max_iter=200)
+
+
+class Node:
+    __slots__ = ("spec", "kind", "obj", "children", "shape", "cond_shape", "dom", "cod", "cod_exact",
+                 "numinv", "invertible", "aux")
+
+    def __init__(self, spec, obj, children=(), *, shape, cond_shape, dom=None, cod=None, cod_exact=True,
+                 numinv=False, invertible=True, aux=None):
+        self.spec, self.kind, self.obj, self.children = spec, spec["k"], obj, list(children)
+        self.shape, self.cond_shape = tuple(shape), (None if cond_shape is None else tuple(cond_shape))
+        self.dom = np.zeros(self.shape, int) if dom is None else np.asarray(dom, int).reshape(self.shape)
+        self.cod = np.zeros(self.shape, int) if cod is None else np.asarray(cod, int).reshape(self.shape)
+        self.cod_exact, self.numinv, self.invertible, self.aux = cod_exact, numinv, invertible, aux
+
+    def walk(self):
+        yield self
+        for c in self.children:
+            yield from c.walk()
+
+
+COMBINATORS = {"Chain", "Scan", "Vmap", "Concatenate", "Stack", "Partial", "Invert", "Reshape", "EmbedCondition"}
+
+
+# ---------------------------------------------------------------------------------------------
+# leaves
+# ---------------------------------------------------------------------------------------------
+def _key(spec, salt=0):
+    return jr.PRNGKey(int(spec.get("seed", 0)) * 7 + salt)
+
+
+def _rand(spec, shape, salt=0, scale=1.0):
+    return scale * jr.normal(_key(spec, salt), tuple(shape))
+
+
+def _pos(spec, shape, salt=0):
+    return jnp.exp(0.7 * jr.normal(_key(spec, salt), tuple(shape)))
+
+
+def _transformer(name):
+    from flowjax.flows import _affine_with_min_scale
+
+    if name == "affine":
+        return B.Affine()
+    if name == "affine_min":
+        return _affine_with_min_scale()
+    if name == "rqs":
+        return B.RationalQuadraticSpline(knots=3, interval=2)
+    if name == "rqs_asym":
+        return B.RationalQuadraticSpline(knots=2, interval=(-1, 3), min_derivative=1e-2)
+    raise ValueError(name)
+
+
+def build_leaf(spec, pscale=0.0):
+    k = spec["k"]
+    shape = tuple(spec.get("shape", ()))
+    cond = spec.get("cond")
+    cond = None if cond is None else tuple(cond)
+    kw = {}
+    if k == "Affine":
+        ls, ss = tuple(spec.get("loc_shape", shape)), tuple(spec.get("scale_shape", shape))
+        obj = B.Affine(_rand(spec, ls, 1), _pos(spec, ss, 2))
+        shape = obj.shape
+        if spec.get("neg"):  # documented route: replace the scale parameter after construction
+            sgn = jnp.where(jr.bernoulli(_key(spec, 3), 0.5, shape), -1.0, 1.0)
+            obj = eqx.tree_at(lambda a: a.scale, obj, sgn * jnp.broadcast_to(_pos(spec, ss, 2), shape))
+    elif k == "Loc":
+        obj = B.Loc(_rand(spec, shape, 1))
+    elif k == "Scale":
+        obj = B.Scale(_pos(spec, shape, 2))
+        if spec.get("neg"):
+            sgn = jnp.where(jr.bernoulli(_key(spec, 3), 0.5, shape), -1.0, 1.0)
+            obj = eqx.tree_at(lambda a: a.scale, obj, sgn * _pos(spec, shape, 2))
+    elif k == "TriangularAffine":
+        n = shape[0]
+        arr = _rand(spec, (n, n), 1, 0.7)
+        arr = arr.at[jnp.diag_indices(n)].set(_pos(spec, (n,), 2))
+        loc = _rand(spec, () if spec.get("scalar_loc") else (n,), 3)
+        lower = bool(spec.get("lower", True))
+        obj = B.TriangularAffine(loc, arr, lower=lower)
+        if spec.get("neg"):
+            tri = jnp.tril(arr) if lower else jnp.triu(arr)
+            sgn = jnp.where(jr.bernoulli(_key(spec, 4), 0.5, (n,)), -1.0, 1.0)
+            tri = tri.at[jnp.diag_indices(n)].set(sgn * jnp.diag(arr))
+            obj = eqx.tree_at(lambda a: a.triangular, obj, tri)
+    elif k == "Exp":
+        obj = B.Exp(shape)
+        kw = dict(cod=np.full(shape, RPOS))
+    elif k == "SoftPlus":
+        obj = B.SoftPlus(shape)
+        kw = dict(cod=np.full(shape, RPOS))
+    elif k == "Tanh":
+        obj = B.Tanh(shape)
+        kw = dict(cod=np.full(shape, UNIT))
+    elif k == "LeakyTanh":
+        obj = B.LeakyTanh(spec.get("max_val", 3.0), shape)
+    elif k == "Identity":
+        obj = B.Identity(shape)
+    elif k == "Flip":
+        obj = B.Flip(shape)
+    elif k == "Permute":
+        n = math.prod(shape)
+        perm = jr.permutation(_key(spec, 1), jnp.arange(n)).reshape(shape)
+        obj = B.Permute(perm)
+    elif k == "AdditiveCondition":
+        mod = spec.get("module", "tensor")
+        if mod == "linear" and len(shape) == 1 and len(cond) == 1:
+            m = eqx.nn.Linear(cond[0], shape[0], key=_key(spec, 1))
+        elif mod == "mlp" and len(shape) == 1 and len(cond) == 1:
+            m = eqx.nn.MLP(cond[0], shape[0], 5, 1, key=_key(spec, 1))
+        else:
+            m = TensorMap(_key(spec, 1), cond, shape)
+        obj = B.AdditiveCondition(m, shape, cond)
+    elif k == "RQS":
+        iv = spec.get("interval", 2)
+        iv = tuple(iv) if isinstance(iv, (list, tuple)) else iv
+        obj = B.RationalQuadraticSpline(knots=int(spec.get("knots", 4)), interval=iv,
+                                        min_derivative=spec.get("min_derivative", 1e-3),
+                                        softmax_adjust=spec.get("softmax_adjust", 1e-2))
+        shape = ()
+    elif k == "Planar":
+        ns = spec.get("negative_slope")
+        mk = {} if cond is None else dict(width_size=5, depth=1)
+        obj = B.Planar(_key(spec, 1), dim=shape[0], cond_dim=None if cond is None else cond[0],
+                       negative_slope=ns, **mk)
+        kw = dict(invertible=ns is not None)
+    elif k == "Coupling":
+        obj = B.Coupling(_key(spec, 1), transformer=_transformer(spec.get("transformer", "affine")),
+                         untransformed_dim=int(spec.get("ud", shape[0] // 2)), dim=shape[0],
+                         cond_dim=None if cond is None else cond[0], nn_width=int(spec.get("width", 4)),
+                         nn_depth=int(spec.get("depth", 1)))
+    elif k == "MAF":
+        obj = B.MaskedAutoregressive(_key(spec, 1), transformer=_transformer(spec.get("transformer", "affine")),
+                                     dim=shape[0], cond_dim=None if cond is None else cond[0],
+                                     nn_width=int(spec.get("width", 4)), nn_depth=int(spec.get("depth", 1)))
+    elif k == "BNAF":
+        obj = B.BlockAutoregressiveNetwork(_key(spec, 1), dim=shape[0], cond_dim=None if cond is None else cond[0],
+                                           depth=int(spec.get("depth", 1)), block_dim=int(spec.get("block_dim", 2)),
+                                           inverter=tight_inverter())
+        kw = dict(numinv=True)
+    else:
+        raise ValueError(f"unknown leaf kind {k}")
+    if k in ("Affine", "Scale", "TriangularAffine") and spec.get("neg"):
+        obj = _perturb_keep_sign(obj, pscale * float(spec.get("ps", 1.0)), int(spec.get("seed", 0)) + 17)
+    else:
+        obj = perturb(obj, pscale * float(spec.get("ps", 1.0)), int(spec.get("seed", 0)) + 17)
+    return Node(spec, obj, shape=shape, cond_shape=cond, **kw)
+
+
+def _perturb_keep_sign(obj, pscale, pseed):
+    """Perturb but keep plain (unconstrained) scale / diagonal entries away from zero."""
+    new = perturb(obj, pscale, pseed)
+
+    def fix(a, b):
+        if isinstance(a, jax.Array) and jnp.issubdtype(a.dtype, jnp.inexact):
+            return jnp.where(jnp.abs(b) < 0.05, a, b)
+        return b
+
+    return jax.tree_util.tree_map(fix, obj, new)
+
+
+# ---------------------------------------------------------------------------------------------
+# combinators
+# ---------------------------------------------------------------------------------------------
+def _stack_objs(objs):
+    parts = [eqx.partition(o, eqx.is_array) for o in objs]
+    params = jax.tree_util.tree_map(lambda *xs: jnp.stack(xs), *[p for p, _ in parts])
+    return eqx.combine(params, parts[0][1])
+
+
+def _merge_cond(shapes):
+    s = [c for c in shapes if c is not None]
+    return s[0] if s else None
+
+
+def py_index(idx):
+    """JSON index spec -> python/numpy index object."""
+    t = idx["t"]
+    if t == "int":
+        return int(idx["v"])
+    if t == "slice":
+        return slice(*idx["v"])
+    if t == "iarr":
+        return np.asarray(idx["v"], int)
+    if t == "barr":
+        return np.asarray(idx["v"], bool)
+    if t == "tuple":
+        return tuple(py_index(i) for i in idx["v"])
+    if t == "ellipsis":
+        return Ellipsis
+    raise ValueError(t)
+
+
+def jax_index(idx):
+    t = idx["t"]
+    if t == "iarr":
+        return jnp.asarray(idx["v"], int)
+    if t == "barr":
+        return jnp.asarray(idx["v"], bool)
+    if t == "tuple":
+        return tuple(jax_index(i) for i in idx["v"])
+    return py_index(idx)
+
+
+def build(spec, pscale=0.0):
+    """Build a Node tree (with .obj the flowjax bijection) from a spec."""
+    k = spec["k"]
+    if k not in COMBINATORS:
+        return build_leaf(spec, pscale)
+    if k == "Chain":
+        ch = [build(c, pscale) for c in spec["children"]]
+        objs = [wrappers.NonTrainable(c.obj) if cs.get("frozen") else c.obj
+                for c, cs in zip(ch, spec["children"])]
+        obj = B.Chain(objs)
+        exact = all(c.cod_exact for c in ch) and all(np.array_equal(a.cod, b.dom) for a, b in zip(ch, ch[1:]))
+        return Node(spec, obj, ch, shape=ch[0].shape, cond_shape=_merge_cond([c.cond_shape for c in ch]),
+                    dom=ch[0].dom, cod=ch[-1].cod, cod_exact=exact, numinv=any(c.numinv for c in ch),
+                    invertible=all(c.invertible for c in ch))
+    if k == "Scan":
+        n = int(spec["n"])
+        ch = [build(_reseed(spec["child"], i), pscale) for i in range(n)]
+        if jax.tree_util.tree_leaves(eqx.filter(wrappers.unwrap(ch[0].obj), eqx.is_array)):
+            obj = B.Scan(_stack_objs([c.obj for c in ch]))
+        else:  # Scan needs array leaves to scan over; parameter-free layers are chained instead
+            obj = B.Chain([c.obj for c in ch])
+        return Node(spec, obj, ch, shape=ch[0].shape, cond_shape=ch[0].cond_shape, dom=ch[0].dom, cod=ch[-1].cod,
+                    cod_exact=all(c.cod_exact for c in ch), numinv=ch[0].numinv, invertible=ch[0].invertible)
+    if k == "Vmap":
+        n = int(spec["n"])
+        cax = spec.get("cond_axis")
+        mapped = spec.get("mapped", False)
+        if mapped:
+            first = build(spec["child"], pscale)
+            mapped = len(jax.tree_util.tree_leaves(eqx.filter(wrappers.unwrap(first.obj), eqx.is_array))) > 0
+        if mapped:  # parameter-free children cannot be mapped (nothing to infer the axis size from)
+            ch = [first] + [build(_reseed(spec["child"], i), pscale) for i in range(1, n)]
+            obj = B.Vmap(_stack_objs([c.obj for c in ch]), in_axes=eqx.if_array(0), in_axes_condition=cax)
+        else:
+            ch = [build(spec["child"], pscale)]
+            obj = B.Vmap(ch[0].obj, axis_size=n, in_axes_condition=cax)
+        c0 = ch[0]
+        cs = c0.cond_shape
+        if cs is not None and cax is not None:
+            cs = np.stack([np.zeros(cs)] * n, axis=cax).shape
+        return Node(spec, obj, ch, shape=(n, *c0.shape), cond_shape=cs, dom=np.stack([c0.dom] * n),
+                    cod=np.stack([c0.cod] * n), cod_exact=c0.cod_exact, numinv=c0.numinv, invertible=c0.invertible)
+    if k in ("Concatenate", "Stack"):
+        ch = [build(c, pscale) for c in spec["children"]]
+        ax = int(spec["axis"])
+        cls, npf = (B.Concatenate, np.concatenate) if k == "Concatenate" else (B.Stack, np.stack)
+        obj = cls([c.obj for c in ch], axis=ax)
+        dom, cod = npf([c.dom for c in ch], axis=ax), npf([c.cod for c in ch], axis=ax)
+        return Node(spec, obj, ch, shape=dom.shape, cond_shape=_merge_cond([c.cond_shape for c in ch]), dom=dom,
+                    cod=cod, cod_exact=all(c.cod_exact for c in ch), numinv=any(c.numinv for c in ch),
+                    invertible=all(c.invertible for c in ch))
+    if k == "Partial":
+        c = build(spec["child"], pscale)
+        shape = tuple(spec["shape"])
+        obj = B.Partial(c.obj, jax_index(spec["idx"]), shape)
+        dom, cod = np.zeros(shape, int), np.zeros(shape, int)
+        pi = py_index(spec["idx"])
+        dom[pi], cod[pi] = c.dom, c.cod
+        return Node(spec, obj, [c], shape=shape, cond_shape=c.cond_shape, dom=dom, cod=cod, cod_exact=c.cod_exact,
+                    numinv=c.numinv, invertible=c.invertible)
+    if k == "Invert":
+        c = build(spec["child"], pscale)
+        return Node(spec, B.Invert(c.obj), [c], shape=c.shape, cond_shape=c.cond_shape, dom=c.cod, cod=c.dom,
+                    cod_exact=True, numinv=c.numinv, invertible=True)
+    if k == "Reshape":
+        c = build(spec["child"], pscale)
+        shape = tuple(spec["shape"])
+        cs = spec.get("cond")
+        cs = None if cs is None else tuple(cs)
+        obj = B.Reshape(c.obj, shape if spec.get("give_shape", True) else None, cs)
+        return Node(spec, obj, [c], shape=shape, cond_shape=cs if cs is not None else c.cond_shape,
+                    dom=c.dom.reshape(shape), cod=c.cod.reshape(shape), cod_exact=c.cod_exact, numinv=c.numinv,
+                    invertible=c.invertible)
+    if k == "EmbedCondition":
+        c = build(spec["child"], pscale)
+        raw = tuple(spec["raw_cond"])
+        net = TensorMap(_key(spec, 5), raw, c.cond_shape)
+        net = perturb(net, pscale, int(spec.get("seed", 0)) + 23)
+        return Node(spec, B.EmbedCondition(c.obj, net, raw), [c], shape=c.shape, cond_shape=raw, dom=c.dom,
+                    cod=c.cod, cod_exact=c.cod_exact, numinv=c.numinv, invertible=c.invertible, aux=net)
+    raise ValueError(k)
+
+
+def _reseed(spec, i):
+    """Same structure, different seeds (layer i of a Scan / mapped Vmap)."""
+    if i == 0:
+        return spec
+    out = dict(spec)
+    if "seed" in out:
+        out["seed"] = int(out["seed"]) + 1009 * i
+    for key in ("child",):
+        if key in out:
+            out[key] = _reseed(out[key], i)
+    if "children" in out:
+        out["children"] = [_reseed(c, i) for c in out["children"]]
+    return out
+
+
+# ---------------------------------------------------------------------------------------------
+# reference interpreter: the combinators' DEFINITIONS over the leaves' own methods (numpy glue)
+# ---------------------------------------------------------------------------------------------
+class Trace:
+    def __init__(self):
+        self.maxmag = 0.0
+        self.max_ld_per_elem = 0.0  # conditioning indicator: largest |leaf logdet| / leaf size
+        self.leaf_calls = []  # (node, direction, x_in, c_in)
+
+    def see(self, a):
+        a = np.asarray(a)
+        if a.size:
+            m = float(np.max(np.abs(np.where(np.isfinite(a), a, 0.0))))
+            self.maxmag = max(self.maxmag, m)
+
+
+def ref_eval(node: Node, direction: str, x, c=None, with_ld=True, trace: Trace | None = None):
+    """direction: 'fwd' | 'inv'.  Returns (y, logdet or None) as numpy float arrays."""
+    x = np.asarray(x)
+    k = node.kind
+    tr = trace
+    if tr is not None:
+        tr.see(x)
+
+    def leafcall(n, d, xx, cc):
+        cc = None if n.cond_shape is None else jnp.asarray(cc)
+        if tr is not None:
+            tr.leaf_calls.append((n, d, np.asarray(xx), None if cc is None else np.asarray(cc)))
+        o = n.obj
+        if with_ld:
+            y, ld = (o.transform_and_log_det if d == "fwd" else o.inverse_and_log_det)(jnp.asarray(xx), cc)
+            if tr is not None and np.isfinite(float(ld)):
+                tr.max_ld_per_elem = max(tr.max_ld_per_elem, abs(float(ld)) / max(1, np.asarray(xx).size))
+            return np.asarray(y), float(ld)
+        y = (o.transform if d == "fwd" else o.inverse)(jnp.asarray(xx), cc)
+        return np.asarray(y), None
+
+    def add(a, b):
+        return None if a is None or b is None else a + b
+
+    def child_cond(ch, cc):
+        return cc if ch.cond_shape is not None else None
+
+    if k not in COMBINATORS:
+        y, ld = leafcall(node, direction, x, c)
+    elif k in ("Chain", "Scan"):
+        order = node.children if direction == "fwd" else list(reversed(node.children))
+        y, ld = x, (0.0 if with_ld else None)
+        for ch in order:
+            y, l = ref_eval(ch, direction, y, child_cond(ch, c), with_ld, tr)
+            ld = add(ld, l)
+    elif k == "Vmap":
+        n = node.shape[0]
+        cax = node.spec.get("cond_axis")
+        ys, ld = [], (0.0 if with_ld else None)
+        for i in range(n):
+            ch = node.children[i] if len(node.children) > 1 else node.children[0]
+            ci = None
+            if ch.cond_shape is not None:
+                ci = np.take(np.asarray(c), i, axis=cax) if cax is not None else c
+            yi, l = ref_eval(ch, direction, x[i], ci, with_ld, tr)
+            ys.append(yi)
+            ld = add(ld, l)
+        y = np.stack(ys, axis=0)
+    elif k == "Concatenate":
+        ax = int(node.spec["axis"])
+        sizes = [ch.shape[ax] for ch in node.children]
+        parts = np.split(x, np.cumsum(sizes)[:-1], axis=ax)
+        ys, ld = [], (0.0 if with_ld else None)
+        for ch, p in zip(node.children, parts):
+            yi, l = ref_eval(ch, direction, p, child_cond(ch, c), with_ld, tr)
+            ys.append(yi)
+            ld = add(ld, l)
+        y = np.concatenate(ys, axis=ax)
+    elif k == "Stack":
+        ax = int(node.spec["axis"])
+        ys, ld = [], (0.0 if with_ld else None)
+        for i, ch in enumerate(node.children):
+            yi, l = ref_eval(ch, direction, np.take(x, i, axis=ax), child_cond(ch, c), with_ld, tr)
+            ys.append(yi)
+            ld = add(ld, l)
+        y = np.stack(ys, axis=ax)
+    elif k == "Partial":
+        pi = py_index(node.spec["idx"])
+        ch = node.children[0]
+        yi, ld = ref_eval(ch, direction, x[pi], child_cond(ch, c), with_ld, tr)
+        y = np.array(x, copy=True)
+        y[pi] = yi
+    elif k == "Invert":
+        ch = node.children[0]
+        y, ld = ref_eval(ch, "inv" if direction == "fwd" else "fwd", x, c, with_ld, tr)
+    elif k == "Reshape":
+        ch = node.children[0]
+        cc = None if ch.cond_shape is None else np.asarray(c).reshape(ch.cond_shape)
+        y, ld = ref_eval(ch, direction, x.reshape(ch.shape), cc, with_ld, tr)
+        y = y.reshape(node.shape)
+    elif k == "EmbedCondition":
+        ch = node.children[0]
+        y, ld = ref_eval(ch, direction, x, np.asarray(node.aux(jnp.asarray(c))), with_ld, tr)
+    else:
+        raise ValueError(k)
+    if tr is not None:
+        tr.see(y)
+    return y, ld
+
+
+# ---------------------------------------------------------------------------------------------
+# inputs
+# ---------------------------------------------------------------------------------------------
+def leaf_points(node: Node):
+    """Scalars the implementation of this leaf compares against (plus float neighbours)."""
+    k, pts = node.kind, []
+    if k == "RQS":
+        o = wrappers.unwrap(node.obj)
+        for v in list(np.asarray(o.x_pos)) + list(np.asarray(o.y_pos)):
+            pts += [float(v)]
+        a, b = float(o.interval[0]), float(o.interval[1])
+        pts += [a, b, a - 1.0, b + 1.0, a - 1e3, b + 1e3]
+    elif k == "LeakyTanh":
+        m = float(node.obj.max_val)
+        pts += [m, -m, math.tanh(m), -math.tanh(m), 1.0, -1.0]
+    pts += [0.0]
+    out = []
+    for v in pts:
+        v = float(FDT(v))
+        out += [v, float(np.nextafter(FDT(v), FDT(np.inf))), float(np.nextafter(FDT(v), FDT(-np.inf)))]
+    return out
+
+
+def tree_points(node: Node):
+    pts = []
+    for n in node.walk():
+        if n.kind in ("RQS", "LeakyTanh"):
+            pts += leaf_points(n)
+    return pts or [0.0, 1.0, -1.0]
+
+
+def to_domain(z, tags):
+    """Map arbitrary reals into the tagged domain elementwise (identity where already inside)."""
+    z = np.asarray(z, FDT)
+    tags = np.asarray(tags)
+    pos = np.where(z > 0, z, np.exp(np.clip(z, -30, 0)) * 0.5 + 1e-3)
+    unit = np.where(np.abs(z) < 1, z, np.tanh(z) * 0.999)
+    return np.where(tags == R, z, np.where(tags == RPOS, pos, unit)).astype(FDT)
+
+
+def make_input(raw, picks, pool, shape, tags, sigma=1.0):
+    n = int(np.prod(shape)) if len(shape) else 1
+    vals = []
+    for i in range(n):
+        r = raw[i % len(raw)] * sigma
+        p = picks[i % len(picks)] if picks else -1
+        vals.append(pool[p % len(pool)] if (p >= 0 and pool) else r)
+    return to_domain(np.asarray(vals, FDT).reshape(shape), tags)
+
+
+def make_cond(raw, shape):
+    if shape is None:
+        return None
+    n = int(np.prod(shape)) if len(shape) else 1
+    return np.asarray([raw[i % len(raw)] for i in range(n)], FDT).reshape(shape)
